@@ -162,6 +162,27 @@ func c08Run(c *Ctx) {
 			}
 		}
 	}
+	// 3e. what may stand where a single statement is expected: every declaration / statement form
+	// in the then- and else-arm of an if, in every arm of an else-if chain, as a loop body, and the
+	// same inside a function (the grammar's `statement` has no variable or function declaration)
+	inner := []string{Var("v", "1"), VarNil("v"), K["var"] + " v = 1, w;", Fun("g", "", ""), Fun("g", "p", " "+Ret("p")+" "), Print("1"), "a;", "a = 1;", ";", "{ }", "{ " + Var("v", "1") + " }",
+		If("a", Print("2")), While("a", Break()), For(";", "", "", Break()), Ret(""), Ret("1"), Break(), Continue()}
+	for _, in := range inner {
+		slots := []string{
+			K["if"] + " (a) %s", K["if"] + " (a) " + Print("0") + " " + K["else"] + " %s", K["if"] + " (a) %s " + K["else"] + " " + Print("0"),
+			K["if"] + " (a) " + Print("0") + " " + K["else"] + " " + K["if"] + " (b) " + Print("1") + " " + K["else"] + " %s",
+			K["if"] + " (a) " + Print("0") + " " + K["else"] + " " + K["if"] + " (b) %s " + K["else"] + " " + Print("1"),
+			K["if"] + " (a) { } " + K["else"] + "\n%s", K["while"] + " (a) %s", K["for"] + " (;;) %s", K["for"] + " (" + Var("i", "0") + " i < 1; i = i + 1) %s",
+			K["if"] + " (a) " + K["while"] + " (b) " + K["if"] + " (c) " + Print("0") + " " + K["else"] + " %s",
+		}
+		for _, sl := range slots {
+			for _, wrap := range []string{"%s", K["fun"] + " f() { %s }", "{ %s }", K["while"] + " (a) { %s " + Print("9") + " }"} {
+				if c.Mine() {
+					judge(&Case{Gen: "statement-positions", Src: Print(`"first"`) + "\n" + fmt.Sprintf(wrap, fmt.Sprintf(sl, in)) + "\n" + Print(`"last"`)})
+				}
+			}
+		}
+	}
 	// 4. reserved names and the parameter limit
 	names := []string{"input"}
 	for _, n := range ref.BI {
@@ -353,12 +374,12 @@ func c08CLI(c *Ctx, cs *Case) {
 func init() {
 	register(&CheckDef{
 		ID:   "C08",
-		Rule: "texts: every token sequence of length <=3 (quick) / <=4 (thorough) over a 40-token alphabet (one representative per operator level, literal kind, bracket, separator, keyword, a built-in name) and <=5/<=6 over a 14-token core alphabet, rendered one token per line; every string of <=3/<=4 lexical fragments; every prefix of every corpus program (shipped examples + hand-written programs) alone and extended by every alphabet token; reserved names in every declaring and non-declaring position; 0..300 parameters; printing prefixes followed by one error (in-process and through the binary); random fragment soup and token-mutated programs; nests 2000/10000 deep, complete and truncated; raw invalid-UTF-8/NUL/BOM inputs through the binary. Oracle: spec lexer + Earley recogniser over the published grammar (membership and first non-viable token) + side conditions; monitors: panic/step-budget (totality), evaluation-step counter and stdout (nothing runs), diagnostic lines. Non-trivial = distinct text that was decided (not out of domain).",
+		Rule: "texts: every token sequence of length <=3 (quick) / <=4 (thorough) over a 40-token alphabet (one representative per operator level, literal kind, bracket, separator, keyword, a built-in name) and <=5/<=6 over a 14-token core alphabet, rendered one token per line; every string of <=3/<=4 lexical fragments; every prefix of every corpus program (shipped examples + hand-written programs) alone and extended by every alphabet token; every declaration / statement form in every single-statement slot (if arms, else-if chains, loop bodies; at top level, in a function, block and loop); reserved names in every declaring and non-declaring position; 0..300 parameters; printing prefixes followed by one error (in-process and through the binary); random fragment soup and token-mutated programs; nests 2000/10000 deep, complete and truncated; raw invalid-UTF-8/NUL/BOM inputs through the binary. Oracle: spec lexer + Earley recogniser over the published grammar (membership and first non-viable token) + side conditions; monitors: panic/step-budget (totality), evaluation-step counter and stdout (nothing runs), diagnostic lines. Non-trivial = distinct text that was decided (not out of domain).",
 		Assumptions: []string{"the grammar-as-data in harness/ref/earley.go transcribes grammer.txt with the amendments C08 states", "texts with a ধরি declaration spanning a line break, a trailing comma in an object literal as only departure, or the identifier `input` are out of domain (skipped, counted)"},
 		Run:         c08Run,
 		Judge:       c08Judge,
 		MustCount: func(c *Ctx) []string {
-			return []string{"accepted", "rejected_syntax", "rejected_lexical", "rejected_assign_target", "gen:nothing-runs", "gen:deep-nest", "gen:param-limit", "gen:reserved-names", "gen:assignment-targets", "gen:literal-forms", "gen:code-point-classes", "cli_rejected_clean", "gen:prefix-extension"}
+			return []string{"accepted", "rejected_syntax", "rejected_lexical", "rejected_assign_target", "gen:nothing-runs", "gen:deep-nest", "gen:param-limit", "gen:reserved-names", "gen:assignment-targets", "gen:literal-forms", "gen:code-point-classes", "gen:statement-positions", "cli_rejected_clean", "gen:prefix-extension"}
 		},
 	})
 }
